@@ -189,7 +189,8 @@ theorem inputs_untouched (fs : FS) (subdirs : List String) (out : String) (hout 
 
 /-- A merge that returns (no exception) has read `I` from the probe directories, `I` is in the domain where
 the real code does not raise (`InDomain`: ≥ 1 probe, every probe has spikes — `Spec.NonEmpty` — and not exactly
-one, every probe has channels, per-spike arrays of equal total length), and — merging into an empty output
+one, every probe has channels, per-spike arrays of equal total length, templates of one waveform length, index tables
+of one row width per family — `sameWidth`), and — merging into an empty output
 directory — the output directory then holds exactly the files of the table `expectedOut`, i.e. the values of
 the pure functions all other C11 / C12 theorems are about (the spike order and the offsets the merger keeps on
 `self` between its `write_*` methods are those functions of the inputs; `spike_templates.npy`, written twice,
@@ -208,6 +209,19 @@ output directory is not a probe directory, the merge returns EXACTLY on the load
 theorem merge_returns_iff (fs : FS) (subdirs : List String) (out : String) (hout : out ∉ subdirs) :
     (merge fs subdirs out).2 = none ↔ ∃ I, Loaded fs subdirs I ∧ InDomain subdirs I :=
   Lemmas.merge_returns_iff fs subdirs out hout
+
+/-- Probes whose `pc_feature_ind.npy` (or `template_feature_ind.npy`) tables have different row widths — e.g. a probe with
+2 channels next to one with 4 when the sorter lists `min(3, n)` channels per template — make the merge raise: the
+model of the `ValueError` of `np.concatenate` in `_concat` (merge.py:30, called at merge.py:285; run: tables 2 and 3 wide →
+"all the input array dimensions except for the concatenation axis must match exactly"), after every other file has been
+written; by `inputs_untouched` nothing outside the output directory has changed. With `merge_returns_iff`: `sameWidth`
+of both families is part of `InDomain`, i.e. NECESSARY for the merge to return. (The real code refuses these probes
+although the property quantifies over any channel and template counts: open known finding of C12.) -/
+theorem merge_raises_of_ragged_tables (fs : FS) (subdirs : List String) (out : String) (hout : out ∉ subdirs)
+    (name : String) (hname : name = "pc_feature_ind.npy" ∨ name = "template_feature_ind.npy")
+    (tables : List (List (List Nat))) (hl : loadEach (readTable fs name) subdirs = .ok tables)
+    (hr : sameWidth tables = false) : (merge fs subdirs out).2 ≠ none :=
+  Lemmas.merge_raises_of_ragged_tables fs subdirs out hout name hname tables hl hr
 
 /-- A probe without spikes (or with exactly one) makes the merge raise — the model of the `ValueError`s of
 `np.max` (merge.py:147) and of `np.concatenate` on a squeezed one-element array (merge.py:30) — and by
@@ -263,6 +277,10 @@ example :
 -- stale registers of any shape (here: probe lists of another length) are dropped
 example : (mergeFrom { order := [9, 9], clusters := [[5], [5], [5]], templateOffsets := [7, 7, 7], chanIndexOffsets := [3] }
       exampleFS ["a", "b"] "out").1.1.read ("out", "template_feature_ind.npy") = some (.table [[0], [1]]) := by decide +kernel
+-- index tables of different widths: `ValueError` of `np.concatenate`, after templates.npy was written
+example : (merge (exampleFS.write ("b", "pc_feature_ind.npy") (.table [[0]])) ["a", "b"] "out").2 = some (.ragged "pc_feature_ind.npy") ∧
+    ((merge (exampleFS.write ("b", "pc_feature_ind.npy") (.table [[0]])) ["a", "b"] "out").1.1.read ("out", "templates.npy")).isSome ∧
+    sameWidth [[[0, 1]], [[0]]] = false := by decide +kernel
 -- a spike-less probe: `ValueError` of `np.max`
 example : (merge (exampleProbe "a" [3, 5] [] ++ [(("b", "params.py"), .params 30000 2), (("b", "spike_times.npy"), .ints []),
       (("b", "amplitudes.npy"), .ints []), (("b", "spike_templates.npy"), .nats []), (("b", "spike_clusters.npy"), .nats [])])
